@@ -1163,16 +1163,19 @@ static int depth;
 
 static void deep_copy_svalue (svalue_t *, svalue_t *);
 
-static array_t *
-deep_copy_array (array_t * arg)
+/* The copy is attached to its (zero-filled) destination before its elements
+ * are copied: when a deeper level raises an error, everything built so far
+ * is reachable from the stack slot f_copy() builds the result in and is
+ * released with it. */
+static void
+deep_copy_array (array_t * arg, svalue_t * to)
 {
   array_t *vec;
   int i;
 
-  vec = allocate_empty_array (arg->size);
+  to->u.arr = vec = allocate_empty_array (arg->size);
   for (i = 0; i < arg->size; i++)
     deep_copy_svalue (&arg->item[i], &vec->item[i]);
-  return vec;
 }
 
 static int
@@ -1192,14 +1195,13 @@ doCopy (mapping_t * map, mapping_node_t * elt, mapping_t * dest)
   return 0;
 }
 
-static mapping_t *
-deep_copy_mapping (mapping_t * arg)
+static void
+deep_copy_mapping (mapping_t * arg, svalue_t * to)
 {
   mapping_t *map;
 
-  map = allocate_mapping (0);	/* this should be fixed.  -Beek */
+  to->u.map = map = allocate_mapping (0);	/* this should be fixed.  -Beek */
   mapTraverse (arg, (map_func_t)doCopy, map);
-  return map;
 }
 
 static void
@@ -1218,7 +1220,7 @@ deep_copy_svalue (svalue_t * from, svalue_t * to)
              MAX_SAVE_SVALUE_DEPTH);
         }
       *to = *from;
-      to->u.arr = deep_copy_array (from->u.arr);
+      deep_copy_array (from->u.arr, to);
       depth--;
       break;
     case T_MAPPING:
@@ -1231,7 +1233,7 @@ deep_copy_svalue (svalue_t * from, svalue_t * to)
              MAX_SAVE_SVALUE_DEPTH);
         }
       *to = *from;
-      to->u.map = deep_copy_mapping (from->u.map);
+      deep_copy_mapping (from->u.map, to);
       depth--;
       break;
     default:
@@ -1242,12 +1244,12 @@ deep_copy_svalue (svalue_t * from, svalue_t * to)
 void
 f_copy (void)
 {
-  svalue_t ret;
-
   depth = 0;
-  deep_copy_svalue (sp, &ret);
-  free_svalue (sp, "f_copy");
-  *sp = ret;
+  push_number (0);		/* the copy is built here, see deep_copy_array() */
+  deep_copy_svalue (sp - 1, sp);
+  free_svalue (sp - 1, "f_copy");
+  *(sp - 1) = *sp;
+  sp--;
 }
 #endif
 
